@@ -166,6 +166,17 @@ M = [
  ("black-uses-white-index", "src/evaluate/mod.rs", "        Color::Black => SQUARE_TO_BLACK_BONUS_INDEX,", "        Color::Black => SQUARE_TO_WHITE_BONUS_INDEX,", "violation", ["C18"]),
  ("mate-score-ignores-depth-sign", "src/evaluate/mod.rs", "                BLACK_WINS - remaining_depth as i16", "                BLACK_WINS + remaining_depth as i16", "violation", ["C18"]),
  ("draw-at-99", "src/evaluate/mod.rs", "if board.halfmove_clock() >= 100 {", "if board.halfmove_clock() >= 99 {", "violation", ["C16"]),
+ # ---- knight / king table generators (verified by Verus since R2f) and the queen clause of C14 (11.14)
+ ("knight-table-wrong-file-mask", "src/move_generator/targets.rs", "let move_nee = knight << 10 & !Bitboard::A_FILE & !Bitboard::B_FILE;", "let move_nee = knight << 10 & !Bitboard::A_FILE;", "violation", ["C11"]),
+ ("king-table-forgets-west", "src/move_generator/targets.rs", "        *targets |= (king >> 1) & !Bitboard::H_FILE; // west\n", "", "violation", ["C11", "C06"]),
+ ("king-table-wraps-east", "src/move_generator/targets.rs", "*targets |= (king << 1) & !Bitboard::A_FILE; // east", "*targets |= king << 1; // east", "violation", ["C11"]),
+ ("benign-king-table-reordered", "src/move_generator/targets.rs", [
+     ("        *targets |= (king << 1) & !Bitboard::A_FILE; // east\n        *targets |= (king >> 1) & !Bitboard::H_FILE; // west\n", ""),
+     ("        *targets |= (king << 9) & !Bitboard::RANK_1 & !Bitboard::A_FILE; // northeast\n", "        *targets |= (king << 1) & !Bitboard::A_FILE; // east\n        *targets |= (king >> 1) & !Bitboard::H_FILE; // west\n        *targets |= (king << 9) & !Bitboard::RANK_1 & !Bitboard::A_FILE; // northeast\n"),
+   ], None, "ok|undecided", ["C11"]),
+ ("filter-reverses-order", "src/move_generator/mod.rs", "            valid_moves.push(chess_move);", "            valid_moves.insert(0, chess_move);", "violation", ["C14"]),
+ ("coordinates-take-last-match", "src/game/game.rs", ".find(|m| m.from_square() == from_square && m.to_square() == to_square)", ".filter(|m| m.from_square() == from_square && m.to_square() == to_square).last()", "violation|undecided", ["C14"]),
+
 ]
 
 
